@@ -84,8 +84,8 @@ func runC04(c *Ctx) bool {
 		evalC04(c, cs)
 		c.Progress(false)
 	}
-	// wide parents around 32 / 64 / 128 / 256 children with repeated names, spines deeper than 64 levels
-	for _, w := range []int{31, 32, 33, 34, 63, 64, 65, 66, 127, 128, 129, 255, 256, 257, -66, -130, 0} {
+	// wide parents around 32 / 64 / 128 / 256 / 1024 / 4096 children with repeated names, spines deeper than 64 / 128 / 1024 levels
+	for _, w := range []int{31, 32, 33, 34, 63, 64, 65, 66, 127, 128, 129, 255, 256, 257, 1023, 1024, 1025, 1100, 4100, -66, -130, -1030, 0} {
 		i := idx
 		idx++
 		if !c.Mine(i) {
